@@ -94,7 +94,7 @@ impl Check for C19 {
          free list reached >= 2 pages (> 1022 entries) or an in-leaf<->overflow migration happened, with >= 3 commits; distinct = distinct serialized case".into()
     }
     fn cases(tier: Tier) -> u32 {
-        tier.pick(320, 4000)
+        tier.pick(640, 6000)
     }
     fn strategy(tier: Tier) -> BoxedStrategy<History> {
         history_strategy(HistParams {
